@@ -42,6 +42,9 @@ type SStep struct {
 	Pers  int        `json:"pers,omitempty"`
 	Ack   int        `json:"ack,omitempty"`
 	ID    *U128      `json:"id,omitempty"`
+	// Unk (elect): the Uint128 carries a field this schema does not know (a client built from a newer revision);
+	// the id it announces is (High, Low) all the same
+	Unk   bool       `json:"unk,omitempty"`
 	Ops   []OpSpec   `json:"ops,omitempty"`
 	Flush *FlushSpec `json:"flush,omitempty"`
 	Get   *GetSpec   `json:"get,omitempty"`
@@ -252,7 +255,11 @@ func (x *SRun) Step(st SStep) SObs {
 			Redundancy: spb.SessionParameters_ClientRedundancy(st.Red), Persistence: spb.SessionParameters_AFTPersistence(st.Pers),
 			AckType: spb.SessionParameters_AFTResultStatusType(st.Ack)}}, 1)
 	case "elect":
-		rs, err = s.SendN(&spb.ModifyRequest{ElectionId: st.ID.Proto()}, 1)
+		m := &spb.ModifyRequest{ElectionId: st.ID.Proto()}
+		if st.Unk {
+			m.ElectionId.ProtoReflect().SetUnknown([]byte{0x78, 0x01}) // field 15, varint 1
+		}
+		rs, err = s.SendN(m, 1)
 	case "multi":
 		// more than one of parameters / election id / operations populated: Red != 0, ID, Ops say which
 		// (fewer than two given: parameters + election id 1)
